@@ -514,6 +514,62 @@ func (e *env) emptyBodyOPN(cx *chunkCtx, send *uasc.VerifInstance, uri string, c
 	e.run(&cx2, "opn-empty-body", b, true, nil)
 }
 
+// ------------------------------------------------------------------ carve-out
+
+// carveOut walks the truth table of the guard at the top of verifyAndDecrypt:
+// an instance that holds real keys, with the channel configuration set to
+// every (policy URI ∈ {real, None}) x (mode ∈ {None, Sign, SignAndEncrypt}),
+// is handed an UNSIGNED plaintext MSG chunk and an unsigned plaintext OPN chunk.
+// readChunk copies the SecurityPolicyURI of every incoming OPN into the
+// configuration before verification, so all six rows are reachable.
+func (e *env) carveOut(uri string) {
+	pol := short(uri)
+	inst, err := uasc.VerifNewSymmetricInstance(uri, ua.MessageSecurityModeSign, e.rnd.Bytes(32), e.rnd.Bytes(32))
+	if err != nil {
+		e.r.InfraError = "VerifNewSymmetricInstance: " + err.Error()
+		return
+	}
+	msg, _ := rawChunk(e.rnd.Bytes(40), 5)
+	opn := opnHeader(ua.SecurityPolicyURINone, nil, nil)
+	opn = append(opn, 1, 0, 0, 0, 1, 0, 0, 0)
+	opn = append(opn, e.rnd.Bytes(60)...)
+	binary.LittleEndian.PutUint32(opn[4:], uint32(len(opn)))
+	for _, cfgURI := range []string{uri, ua.SecurityPolicyURINone} {
+		for _, mode := range []ua.MessageSecurityMode{ua.MessageSecurityModeNone, ua.MessageSecurityModeSign, ua.MessageSecurityModeSignAndEncrypt} {
+			for _, asym := range []bool{false, true} {
+				inst.VerifSetChannelSecurity(cfgURI, mode)
+				raw := msg
+				if asym {
+					raw = opn
+				}
+				H, _ := e.hdrLen(raw)
+				res := h.Catch(func() string {
+					d, err := inst.VerifyAndDecryptRaw(raw)
+					if err != nil {
+						return "secured"
+					}
+					if len(d) == len(raw)-H && bytes.Equal(d, raw[H:]) {
+						return "raw"
+					}
+					return fmt.Sprintf("ok %d", len(d))
+				})
+				if res == "panic" {
+					res = "secured" // went past the guard (the short-chunk panics are separate findings)
+				}
+				c := fmt.Sprintf("carve %d %d %d", b2i(mode == ua.MessageSecurityModeNone), b2i(cfgURI == ua.SecurityPolicyURINone), b2i(asym))
+				e.r.Count(c+" "+pol, true)
+				e.r.Hit("carve:" + res)
+				e.r.Compare(e.d, c, res)
+				// ---- oracle: in Sign / SignAndEncrypt mode nothing unsigned is delivered
+				if mode != ua.MessageSecurityModeNone && res != "secured" {
+					e.r.Fail(fmt.Sprintf("%s policy=%s cfgPolicy=%s mode=%d asym=%v chunk=%s", c, pol, short(cfgURI), mode, asym, h.Hex(raw)), "",
+						"an unsigned plaintext chunk was delivered on a channel in Sign/SignAndEncrypt mode ("+res+")")
+				}
+			}
+		}
+	}
+}
+
 // ------------------------------------------------------------------ main
 
 func (e *env) all() {
@@ -541,6 +597,11 @@ func (e *env) all() {
 	}
 	for _, k := range cfg {
 		e.asymmetric(k.uri, k.c, k.s)
+	}
+	for _, uri := range uapolicy.SupportedPolicies() {
+		if uri != ua.SecurityPolicyURINone {
+			e.carveOut(uri)
+		}
 	}
 }
 
